@@ -103,7 +103,7 @@ def run_smtp_case(case):
             exts.append('STARTTLS')
         if case.get('auth'):
             # 'auth' may name the mechanisms the peer advertises (e.g. one the SASL library does not know)
-            exts.append('AUTH ' + (case['auth'] if isinstance(case['auth'], str) else 'PLAIN LOGIN'))
+            exts.append('AUTH' if case['auth'] == '-' else 'AUTH ' + (case['auth'] if isinstance(case['auth'], str) else 'PLAIN LOGIN'))
         p = StagePeer(script, lmtp=lmtp, exts=exts, chunks=case.get('chunks'), multiline=case.get('multiline', False))
         peers.append(p)
         return p
@@ -191,7 +191,8 @@ def run_smtp_case(case):
             if case.get('utf8_rcpt') is not None and case['utf8_rcpt'] < len(rcpts):
                 applies_rcpt.setdefault(case['utf8_rcpt'], []).extend([('RCPT', 'recipient needs SMTPUTF8', 'perm'),
                                                                         ('RCPT', 'recipient needs SMTPUTF8', 'temp')])
-            if isinstance(case.get('auth'), str) and not set(case['auth'].split()) & {'PLAIN', 'LOGIN', 'CRAM-MD5'}:
+            if isinstance(case.get('auth'), str) and not set(case['auth'].split()) & {'PLAIN', 'LOGIN', 'CRAM-MD5'} and \
+                    any(st_ in ('EHLO', 'LHLO', 'EHLO2') and o_ == '2xx' for (_, _, st_, o_) in slices):
                 # nothing the client could use is on offer: the attempt cannot succeed
                 applies_all.append(('AUTH', 'no usable mechanism', 'perm'))
                 applies_all.append(('AUTH', 'no usable mechanism', 'temp'))
@@ -316,8 +317,10 @@ def smtp_table():
                     yield {'kind': kind, 'pipelining': pipelining, 'nrcpt': n, 'utf8_rcpt': i, 'reuse': True, 'scripts': [{}, {}]}
                 yield {'kind': kind, 'pipelining': pipelining, 'nrcpt': n, 'utf8_sender': True, 'scripts': [{}]}
             # AUTH exchanges going wrong on the server side: a challenge that is not base64, unknown / challenge-first mechanisms
-            for mechs in ('PLAIN LOGIN', 'LOGIN', 'FOOBAR', 'NTLM GSSAPI', 'FOOBAR PLAIN', 'NTLM LOGIN'):
-                for outc in ('334bad', '2xx', '5xx'):
+            # ('-' = the bare keyword without any mechanism; a mechanism name that is not ASCII; one challenge too many)
+            for mechs in ('PLAIN LOGIN', 'LOGIN', 'FOOBAR', 'NTLM GSSAPI', 'FOOBAR PLAIN', 'NTLM LOGIN', '-', 'PL\u00c4IN', 'PL\u00c4IN LOGIN',
+                          'CRAM-MD5', 'CRAM-MD5 PLAIN'):
+                for outc in ('334bad', '334', '2xx', '5xx'):
                     yield {'kind': kind, 'pipelining': pipelining, 'nrcpt': 1, 'auth': mechs, 'scripts': [{'AUTH': outc}]}
             # a recipient accepted with another positive code than 250 ("251 user not local; will forward")
             for n in (1, 2, 3):
@@ -532,7 +535,7 @@ def replay(case):
         scripts = []
         for s in case['scripts']:
             scripts.append(dict((k, v) for k, v in (s or {}).items()
-                                if v in OUTCOMES + ['500', '2xx', '251', '252', '334bad'] and odd_code_ok(k, v)))
+                                if v in OUTCOMES + ['500', '2xx', '251', '252', '334bad', '334'] and odd_code_ok(k, v)))
         case['scripts'] = scripts or [{}]
         f, _ = run_smtp_case(case)
         return f
